@@ -299,3 +299,233 @@ CLAIMS = {
  },
 }
 NOT_APPLICABLE = {p: PENDING for p in ['C%02d' % i for i in range(1, 21)] if p not in CLAIMS}
+
+# ---------------------------------------------------------------------------------------------------------------
+# Strengthening pass (after the review in findings/gap_report_1.md): claims restated to match what is now proved.
+def _upd(pid, text=None, note=None, note_add=None, technique_add=None):
+    c = CLAIMS[pid]
+    if text is not None:
+        c['text'] = text
+    if note is not None:
+        c['note'] = note
+    if note_add:
+        c['note'] = c['note'].rstrip() + ' ' + note_add
+    if technique_add:
+        c['technique'] = c['technique'].rstrip() + ' ' + technique_add
+
+
+_upd('C04',
+     text='PARTIAL. Coq theorems (closed) on the transition system of robsd()\'s loop and its jobs, for every configuration, ncpu, skip set, initial step file of that '
+          'configuration (fresh or resumed) and EVERY schedule: the property-shaped checker spec_ok_trace/check_trace - the oracle applied to real runs - accepts every '
+          'reachable state\'s sequence of starts/ends, and the whole oracle every ended run (guard: no end record in the initial file, end last; witness outside the guard '
+          'proved); what acceptance means is proved on the sequence itself (configuration order with nothing skipped over, skipped steps never start, at most once, barrier '
+          'before a synchronous step, earlier synchronous steps finished, < ncpu running, nothing after a synchronous failure, exit status / end record / completeness); '
+          'enabledness (a parallel step starts whenever the queue is not full, whatever runs; one gone job suffices; a synchronous step iff the barrier is clear); failed mode '
+          'iff a started synchronous step finished non-zero; no start after such a finish on the event log; non-interference: parallel exit codes never change which steps '
+          'start, when, or what is enabled; state invariant incl. the ncpu bound. Tied to the code by end-to-end canvas runs with gated probe steps and by a line-by-line pin of robsd()/step_exec_job.',
+     note_add='The shape of robsd()/step_exec_job in util.sh is pinned line by line by harness/t_orch.py (Gen_Orch.v) and compared with the modelled shape '
+              '(C04_loop_is_the_modelled_one); the semantics of the shell constructs stay assumed.',
+     technique_add='+ oracle-soundness proof (checker-state/model-state invariants) + source pin translator t_orch.py')
+_upd('C11',
+     text='PARTIAL. Coq theorems on the same transition system extended with the step-file writes of step_exec_job, the hook calls and ONE lock/invocation model, for every '
+          'configuration and schedule: every started step that finished has exactly one record with its real exit status, finished exactly once; at the end nothing runs and no '
+          'record is in flight; hook calls are exactly the finished steps with names and exit statuses plus the end hook exactly when end was recorded; skipped steps never run, '
+          'keep their skip record and get no hook; the report/mail/end-hook/exit-status decision stated over the RECORDS (exit 0 iff an end record exists; a failing parallel step '
+          'alone: exit 0 with a report - proved and replayed on robsd); the accounting oracle spec_ok_account accepts every ended fresh run of the model; lock model (build_init, '
+          'lock_acquire, exit trap, lock_release) for the running invocation and all invocations started meanwhile in any interleaving: it gets the lock, the lock names it at every '
+          'point and is gone afterwards, every other invocation - for every pair of names incl. prefix-related ones - is refused with status 1 touching nothing but its own directory, '
+          'stated for the ownership tests the translator found in util.sh; the two record writes of step_exec_job are the C01 dictionary writes (insert and update case, start time kept).',
+     note='Not modelled (observed): log contents (the oracle\'s log bits are set by fiat in the theorem), duration (non-negativity not claimed: the clock may step), mail transport. '
+          'ASSUMED: lock_acquire atomic (cat-then-echo window), robsd-wait contract, bash for ksh. Excluded by hypothesis: end in the skip set (observation in '
+          'findings/C11_skip_end_observation.md); the accounting-oracle theorem is for fresh invocations (C03 for resume). util.sh trap_exit/lock_*/robsd()/step_exec_job pinned '
+          'line by line by t_orch.py; the lock functions additionally run alone against the extracted model.',
+     technique_add='+ oracle-soundness proof + combined lock/orchestrator interleaving model + source pin translator + lock unit correspondence')
+_upd('C15',
+     text='PARTIAL (two readings, each with exact guard + refutation). Coq theorems about the model of invocation_read/match_directory/invocation_alloc/invocation_walk + robsd-ls main, '
+          'for every directory content, root, keep-dir, lock content and every qsort-like function: listed <-> d_type DT_DIR, not hidden, path != keep-dir; each once; strictly '
+          'descending; -B drops exactly the entry whose printed path equals the first line of .running, and for a given directory that happens iff the lock spells its path as printed '
+          '(C15_B_omits_denoted_iff); in terms of the REAL kinds the set clause holds when readdir fills d_type faithfully (C15_exact_set_real) and on a file system answering DT_UNKNOWN '
+          'nothing is listed with exit 0 (C15_dt_unknown_lists_nothing); unique solution, oracle accepts exactly it, both exit branches. Byte-exact runs of robsd-ls in all five modes.',
+     note='known finding B-lists-lock-target-spelled-differently. Replayed observation outside the quantifier (a property of the file system, not of the root\'s contents): '
+          'DT_UNKNOWN lists nothing (findings/C15_dt_unknown.md, candidate patch not applied). Assumed: readdir names distinct, qsort contract, no PATH_MAX truncation, names without newline; '
+          'configuration loader exercised, not modelled; correspondence bounded by generated roots (<= 22 entries).')
+_upd('C16',
+     text=CLAIMS['C16']['text'].replace(' Tied to bash robsd-clean', ' The kept set is characterised for EVERY lock (C16_kept_set_total); outside lock_consistent every lock naming no listed path '
+          'keeps the n-1 newest (C16_kept_set_outside_guard); the guard is discharged for the lock a new invocation writes; attic COMPLETENESS: one destination per removed invocation, every '
+          'whitelisted non-tmp entry arrives there with its content and nothing else is new, under the guard that destinations are pairwise apart (true for Y-M-D.X names, which build_id '
+          'produces; refuted for a-a/a and replayed); the tree oracle spec_ok_clean is PROVED to accept every model result (guards: lock_consistent, date-shaped names, no v/v/tmp entry - '
+          'each with a witness); robsd-clean\'s retention/attic tail and util.sh purge are read by the translator. Tied to bash robsd-clean'),
+     note=CLAIMS['C16']['note'].replace('; the attic clauses of the oracle are checked against the model by execution, not proved', ''))
+_upd('C17',
+     text=CLAIMS['C17']['text'].replace(' Tied to the real functions', ' End to end: build_id composed with build_init on a tree with file contents yields the tree plus exactly four fresh entries '
+          'in every state reachable by runs and cleaning, and never removes or changes an entry in any tree (C17_new_invocation_fresh / _never_overwrites); log names stay fresh under any '
+          'interleaving with entries appearing (not top-level STEM.log.k) and non-log entries disappearing (C17_log_env_fresh); both oracles are proved to accept the models. Tied to the real functions'),
+     note_add='NOT claimed (outside the quantifier, stated by theorems and replayed): concurrency - two runs computing build_id before either creates the directory share it and both pass '
+              'lock_acquire (C17_concurrent_same_id_not_excluded, findings/C17_concurrent_same_id.md); a deleted log lets log_id reuse an existing name (C17_log_del_refuted, nothing in robsd deletes a log; '
+              'candidate patch findings/C17_log_id_after_delete.diff not applied).')
+_upd('C14',
+     text='Coq theorems (32, closed): for every command line and every sorted-permutation qsort, the model renders one column per invocation by descending start time; one row per suite, equal to '
+          'the insertion sort of the suites by (group, failures, name); pass rate floor(100*(total-fail)/total) for all counts, 0 for none. exit 1 iff nothing is named, an invocation is invalid, '
+          'or an arch/date path collides. UNGUARDED: every rendered cell is the status and arch/date/log link of SOME run of that suite, never under a newer invocation; no row is longer than the '
+          'header; the row is exactly the placement by counting (C14_row_placement). "Cell(S,I) shows a status iff S ran in I" is PROVED under the per-row guard (S once per invocation, and its '
+          'invocations have unique start times), and REFUTED for every qsort without it (known finding run-shown-under-wrong-invocation). C14_wrong_invocation_iff says exactly when a run is shown '
+          'under another invocation of equal start time. The column pointer is modelled with the source\'s own end pointer and loop test (read by the translator): no read outside the vector, and the '
+          'bound is tight. The output tree is the specified one; a run\'s link holds that run\'s extraction provided the path is created with that content only (refuted for two steps sharing a log '
+          'name). The executable oracle accepts the model\'s own page except clause 6 (names without "/"), and fully under the per-row guards. C14_historical_* are pins of deleted code, not results.',
+     note_add='html.c does not escape names (observation, findings/C14_observations_strengthen.md); <, > and " are not generated. total counts recorded runs, not suites. Only the ri pointer of '
+              'render_suite is index-modelled; html.c, the map and the vector are not. The self lane executes the oracle theorem on every case.')
+_upd('C19',
+     text='PROVED for every well-formed configuration (instantiated for both builds and page sizes 4-64 KiB), unbounded sequences and sizes: every pointer any call returns is maxalign-aligned for '
+          'ALL call sequences (no API hypothesis); for every state reachable from arena_alloc by a well-bracketed run (scopes left innermost first - the named guard lifo_okb, which is what the '
+          'arena_scope() macro enforces) respecting client_okb (open scope, arena not freed, realloc names a live user block with its true size, client writes inside live user blocks): live blocks '
+          'are disjoint, inside their frame behind the header, and keep their bytes over any continuation until their own or an enclosing scope is left or they are reallocated (liveness derived, not '
+          'assumed); realloc keeps the common prefix; a leave frees exactly that scope\'s blocks and runs exactly its cleanups, newest first; from arena_alloc to all-scopes-left the cleanups that ran '
+          'are a permutation of those registered, and in any run (also ending in trap or exit) none runs more often than registered; every allocation, cleanup or realloc (growing or shrinking, of any '
+          'live block) through a non-innermost scope traps, and everything else returns or exits only for more than 2^63 bytes; arena-backed buffers and full vectors issue only growing reallocs '
+          'inside the API, trapping exactly through outer scopes; the executable oracle (content checks computed from the states) accepts every run of the model.',
+     note='Outside the property, stated as exact observations: leaving a non-innermost scope is not detected (a block of a still-open scope is handed out again; the frame header is handed out; '
+          'findings/C19_nonlifo_leave.md - robsd leaves scopes only through the block-structured macro). The outer-scope shrink hole was found here, repaired in /repo 4eb1227, and pinned by '
+          'C19_shrink_validated_now, C19_outer_shrink_damage and the corpus case; the earlier growth hole by 08bdded. OBSERVED only: two-arena non-interference (trusted: distinct malloc chunks), '
+          'vector_reserve on a non-full vector (names less than the block size; C19_vector_partial_reserve_outside_api), buffer.c and vector.c keeping their size fields in step with what they were '
+          'granted (hypotheses buf_ok, vec_ok). Disjointness is vacuous for zero-size blocks. The offset-0 header witness is proved for the 8 build configurations only. Memory safety of arena.c '
+          'itself is observed under ASan, not proved.')
+
+_upd('C01',
+     text='Coq theorems (closed under the global context) over an executable model of step.c / robsd-step.c (lexer, header and row parser, defaults, strtonum, write-time value check, the id test of '
+          'action_write, sort, serialisation through the interpolation model, -W, -R by position and by name, and a file system that accepts only the first k bytes of the rewrite) and an abstract '
+          'dictionary. For EVERY history and EVERY argument list (step=... included), column f of id i holds the value of the most recent accepted write to i that mentions f, the documented default when '
+          'none does, and there is no row when no write to i was accepted (C01_latest_value). The dictionary specification is adequate: put/find, last key wins, strictly ascending keys, other ids '
+          'unchanged. One write is accepted iff the specification accepts it, and then the file is the serialisation of the updated dictionary; otherwise exit 1 with identical bytes. By induction every '
+          'history from the empty file leaves a file representing the dictionary of the accepted writes; reading a column at the id\'s position or by the row\'s name prints exactly that latest value. '
+          'These hold for every argument list by eq_refl on the switch the translator reads from action_write. A rejected write changes nothing, for every file content and under every file-system fault. '
+          'Exit 0 under any fault means the file is header plus the requested rows in ascending order and reads back as exactly them (guard: no $ in stored strings; a hand-made file outside the guard '
+          'refutes it). A refusal after k bytes leaves exactly the first k bytes of the new content and exits 1 iff k < length; what the next command then sees is stated. REFUTED for histories that '
+          'contain a refused write: earlier rows are lost (witness; KNOWN finding refused-write-damages-file). HISTORICAL RECORD about the command without the id test (repaired in /repo 17c91c8): step=J '
+          'with J different from the -i id renumbered the row. Both harness oracles (by position and by name) are proved to accept every run of the model. Decimal print/parse round-trips for every integer. '
+          'The field table, bounds, value check, fwrite/fclose result checks, the id test and the serialise-before-truncate order are regenerated from the source on every run.',
+     note='Trusted/assumed: Coq kernel, extraction, translator regexes (t_step.py, t_lock.py), strtoll syntax re-written in Gallina, fopen("w") truncating, and the file system modelled as "the first k bytes are '
+          'accepted" (RLIMIT_FSIZE = k with SIGXFSZ ignored, tools/c01_fsize.c). ASSUMED about libc: a 4096-byte stdio block, fwrite writes whole blocks itself and fclose the tail; compared with robsd-step at '
+          'byte granularity around the block boundaries. qsort order of rows with equal id is not modelled (such rows are compared as a multiset). The read theorems cover single-line ${field} templates. '
+          'Repaired through this check: fix: commits bda6bfa, 33c7519, 17c91c8. Known finding: refused-write-damages-file (no small repair that keeps the inode and the flock protocol). Correspondence '
+          'bounded by generated histories of <= 12 writes with refusal points k at 0, in the header, in a row, on a row boundary, around 4096/8192, and len-1.',
+     technique_add='+ byte-granular refused-write correspondence + source-order pin')
+_upd('C02',
+     text='Coq theorems (closed) on a transition system of robsd-step processes whose rewrite is split into several write(2) calls (mids, any): mutual exclusion, only the holder writes, whatever a LOCKING '
+          'process reads is a committed prefix, quiescent implies serial, and the file content at EVERY reachable state. A reader that does not lock can see empty or partial content (witness), so the property '
+          'is about locking readers, as stated. Composition with C01: eff is the C01 history, so any quiescent concurrent run from the empty file equals a serial C01 history in lock order - for every set of '
+          'commands and every lock order - and reads return the latest value in that order; final_reports equal the reports of the same commands run serially. spec_ok_serial is proved to accept every model run. '
+          'The call order of step.c/robsd-step.c is regenerated (t_lock.py) and proved to be the model\'s program-counter order. Witnesses: no lock, early unlock, refused write under the lock. Tied to the code by '
+          'real robsd-step processes driven through sync points along adversarial schedules, an undriven lane under a delay shim, and a call-tracing lane.',
+     note_add='Adds the t_lock regexes (helper functions expanded in place, error exits dropped) and the tracing LD_PRELOAD lane to the trusted base. The glibc chunking of the rewrite is assumed and observed, '
+              'not proved. Fault x concurrency: witness only.')
+_upd('C03',
+     text='Coq theorems (closed): step_next equals the literal specification for every row list. For every configuration skeleton (ascending ids, names MAY repeat), every skip set, every crash point between two '
+          'step-file writes, repeated crashes and resumes WITH EXIT CODES FREE AT EVERY ATTEMPT, and resumed invocations that rewrite skip records at step 1: the files satisfy the invariant goodk (prefix completed, '
+          'live names, coverage, skip records exit 0). The resume point is never beyond an uncompleted step. A resumed run executes nothing below the resume point, no completed step again, the interrupted or failed '
+          'step first, and nothing is passed over (C03_resumed_run_executes, C03_resume_reexecutes). step_next and the loop are proved equal to functions assembled from util.sh by translation (t_shell.py). Both '
+          'harness oracles are proved (reflection / accept every model run). Boundary for parallel steps as a theorem (C03_parallel_resume_skips_inflight), replayed on the real canvas.',
+     note='PARTIAL in the tie (bash for ksh, stand-ins). A crash inside one robsd-step -W is outside the quantifier (C01/C02). The execution theorems are about resumed invocations that add no skip records. '
+          'Parallel steps are outside the property ("sequential invocation"): an in-flight parallel step below a completed one is not re-run on resume (boundary theorem, findings/C03_parallel_resume.md, '
+          'candidate diff not applied). t_shell.py pins the decisions, not the whole control flow of robsd() (t_orch.py pins that).')
+_upd('C05',
+     text=CLAIMS['C05']['text'] + ' The two hypotheses of the status theorem are discharged for every file the orchestrator writes (C05_status_orchestrated, C05_written_skip_records_exit0; all modes, parallel '
+          'schedules, crash and resume) on the same rows; the excerpt is characterised as a log suffix at a line start with min(10, n) non-empty lines; failing section and status are proved down to the printed bytes; '
+          'every harness oracle is proved to accept the model.',
+     note_add='Caveat as theorems: when a file of a listed row cannot be read there is no report at all (exit 1, empty output) - C05_report_main_silent, C05_never_hidden_refuted; outside the quantifier for the '
+              'orchestrator\'s own logs. The cvs-log case (never written: robsd-ports without cvs-root, first checkout) was a genuine defect, repaired in /repo da850b3 and pinned by '
+              'C05_ports_cvs_logs_missing_holds_now. Historical pins are Remarks and not counted.')
+_upd('C18',
+     text=CLAIMS['C18']['text'].replace('util.sh duration_total / regress_duration_total equal steps_total_duration', 'the shell totals, assembled from util.sh / util-regress.sh by translation '
+          '(C18_shell_translated), equal steps_total_duration') + ' The composed Duration:/Size: lines of a produced report are the specified text; in-flight -1 rows never change report existence, status or '
+          'sections (C18_inflight_does_not_break); no int64 overflow: every partial sum (C and shell) and the regress difference stay strictly inside int64 for fewer than 2^22 rows, |duration| <= 2^40, '
+          '|time| < 2^62 (C18_no_overflow, C18_no_overflow_wall).')
+_upd('C13',
+     text='Coq theorems (closed under the global context) for every selection, every list of files and every byte content (any line length, NUL, CR): the model of robsd-regress-log equals a comprehension-style '
+          'specification; exit 0/1 iff some line after the longest leading prefix of "+" lines contains a keyword of a selected outcome, stated on bytes, and exit 2 iff a file is unreadable; a test marker is '
+          '"==== ====" or "==== x ====" without " =" inside " x " (the documented regex is neither sufficient nor necessary); the blocks are the unique solution of a relational specification; for any file list '
+          'the printed lines are the blocks of all files in order with one empty separator line between them; the block lines are a subsequence of the log lines, and the selected lines printed are exactly the '
+          'selected lines after the trace blocks, with multiplicity and order, each ending its own block; print/no-print and peek agreement, regress_log_trim specified, and the oracles accept exactly the model\'s '
+          'runs; the "Hence" clause: an iff for regress_failed, an exact characterisation of step_exec\'s status, and the clause holds for step_exec for every tee schedule in the present source (pin on a translated '
+          'switch; the earlier in-pipeline check refuted it - found by this check and fixed in /repo 604d158); the clause is FALSE for robsd-regress-html taken alone (a recorded exit 0 never yields a failure '
+          'status) and true composed with step_exec\'s status; keywords, marker strings, scan characters, selection structure, option table, exit codes and the callers\' options and status chain are regenerated '
+          'from the source on every run (t_regresslog.py).',
+     note='trusted: Coq kernel, extraction (ExtrOcamlBasic), hex glue, generators, translator t_regresslog.py; read(2)/strstr/printf of libc are modelled, not verified; correspondence: generated logs (<= ~25 lines '
+          'plus single lines up to 1 MiB), 1-3 files, through the command, the three library entry points in process (NEWLINE and a pre-filled buffer included) and the real util.sh step_exec with a stand-in runner '
+          'and a late-scheduled tee; bash stands in for ksh; the property text\'s "solely lines of the log" holds up to the separator lines.')
+_upd('C09',
+     text=CLAIMS['C09']['text'].replace('output on failure.', 'output on failure. The depth index only limits: the relation is monotone in it, the depth-free relation SubstInf is its union and is functional, and '
+          'a template with an interpolation has a least depth d0 (it succeeds at every depth >= d0 and fails with "recursion too deep", and nothing else, below it), while a template without one fails at every '
+          'depth. The output never contains NUL. INTERPOLATE_IGNORE_LOOKUP_ERRORS is a relation of its own (an unknown well-formed reference is copied verbatim and scanning continues), and the model is proved '
+          'equivalent to it. The characters $ { }, the order of the tests, the IGNORE copy and the two depth sites are matched token for token in the source (t_interpsrc.py).'),
+     note_add='t_interpsrc.py (token-level translator) joins the trusted list; the diagnostic text is pinned by it but stderr is not a model output.')
+_upd('C08',
+     text='Coq theorems (closed). Acceptance: for robsd, robsd-cross, robsd-ports and robsd-regress the implementation\'s reader accepts a text iff the text conforms to the DOCUMENTED grammar (DocSpec.v, '
+          'hand-transcribed from the man pages), and then defines the same dictionary (C08_accept_iff_documented; independence of row order proved, C08_row_order_irrelevant); canvas accepts exactly the '
+          'documented grammar plus one settable required row robsddir (known finding). The reader is sound and complete for the declarative entry grammar of any table (C08_accept_iff_conforms*). Lexer laws '
+          'for integers, comments and strings. Every rejection exits 1, prints nothing on stdout and leaves a diagnostic naming the file (C08_reject_names_file_holds_now, source as repaired by 78f946e). '
+          'Values: every settable plain keyword of every mode interpolates to its first defining entry\'s value, except robsddir in canvas (C08_value_of_accepted_all/_covers); per-test options '
+          'env/parallel/quiet/root are changed only by their own test and the flags have exactly the documented values; ${kw} yields exactly the rendering when it contains no $; defaults by computation; '
+          'rdomain: k-th reference = 11 + k mod 245 for every k, any two of 245 consecutive references differ (source as repaired by c0e596d); an accepted configuration reaches no C-level trap '
+          '(C08_accepted_no_abort_holds_now, source as repaired by 35cfab1).',
+     note='Proved about the Gallina model (Conf/ConfDefs.v) for all tables/environments; instantiated with tables regenerated from conf*.c, conf-token.h, mode.h (t_conf.py) and with the DocSpec tables. '
+          '_refuted theorems for the rdomain wrap, the path-less diagnostic and the builddir re-entry are historical pins (translator switches now true). Not proved: regress-<p>-targets/-env end to end '
+          '(a reference materialises the targets default), n successive ${rdomain} in one template. Observed only: model = robsd-config on generated cases (exit, stdout, complete diagnostic sequence). '
+          'Assumed: stat/getpwnam/glob/fnmatch(literal*literal)/getenv/sysconf/if_group_addr as environment record, compiler overflow builtins, C locale ctype, 512-byte diagnostic buffer not exceeded; DocSpec '
+          'is a hand transcription (required = occurs in the page\'s example; crossdir/chroot/ports-dir unchecked strings). Three genuine defects found by this check were repaired (fix: commits c0e596d, '
+          '78f946e, 35cfab1); known finding: canvas-accepts-undocumented-robsddir.')
+_upd('C12',
+     text='PARTIAL. Proved (Coq, closed) for all inputs about the models: robsd-config never reaches any of the ten assert/trap/unbounded-recursion sites of the configuration reader '
+          '(C12_config_no_abort_holds_now; nine dead for every trap_free table, the tenth dead with the re-entry guard of /repo 35cfab1 - found by this proof); robsd-config exits 0 or 1 with a classified '
+          'diagnostic and empty stdout on exit 1 (C12_config_exit_and_diag); every outcome of robsd-step -R/-W, robsd-regress-log and interpolation is classified with its cause (C12_step_read_outcome, '
+          'C12_step_write_outcome, C12_regress_log_outcome, C12_interpolation_reject_names_line); the parsers are total, the lexer cursor stays inside its buffer for every getc/ungetc sequence (guards read '
+          'from the source), fuels are never exhausted. OBSERVED only: absence of memory errors / undefined behaviour / hangs in the C code - a clang ASan+UBSan build of every helper fed with grammar-derived '
+          'inputs of all five configuration grammars, step files, regress logs, templates and report build directories, their byte-level mutations and raw bytes, 5 s limit each, compared with the models.',
+     note_add='The re-entry lane (configurations whose robsddir expands to ${builddir}) is compared with the model. No stderr in the step/regress models; report/html/ls/hook have no C12 theorem.')
+_upd('C06',
+     text='Coq theorems (closed): the vector robsd-exec hands to execvp is the element-wise rendering of the first step of that name, for the abstract view (C06_argv_exact) and for every accepted configuration '
+          'FILE of the five modes (C06_argv_exact_parsed, through the proved bridge to the C08/C10 parser model; robsd-regress under the guard that the schedule renders without the rdomain counter). Script '
+          'steps have the shape sh -eu [-x] script name. The runner exits 0 iff the command exited 0, stated for the whole runner with the exact guard "fork handshake in time and no SIGALRM caught" '
+          '(C06_runner_exit_zero_iff); SIGALRM is impossible outside robsd-regress with a positive timeout (invariant over C07\'s transition system); the two exceptions are theorems with witnesses. Non-zero '
+          'codes and signals pass through (C06_exit_faithful on the clang-translated exitstatus). Unresolvable is non-zero with a diagnostic (C06_unresolvable_is_error); an empty vector gives a non-zero status '
+          'with a diagnostic. robsd-hook\'s three outcomes are characterised. The oracle accepts every model run.',
+     note='The kernel (fork/execvp/waitpid/signals) is universally quantified via kernel_ok and null_exec_fails. The fork handshake timeout is modelled (run_fork/HsLate) and driven on the real binary through an '
+          'LD_PRELOAD delay shim: a step that cannot be put under supervision within 1 s yields "process group failure" and a non-zero status although its command may exit 0 (consistent with "cannot be started '
+          'yields non-zero with a diagnostic"; observation findings/C06_fork_handshake.md; the signal side is C07\'s known finding). "No crash" is relative to three enumerated sites. The python-built view is '
+          'compared with the parsed file on every step case. C06_unresolvable_is_error_refuted and C06_shipped_crash_iff are historical pins about the pre-0771f90 body.')
+_upd('C10',
+     text='Coq theorems (closed): for every accepted configuration that has a schedule the listing is numbered 1..N, N>=1, ending with end; a schedule exists iff every command renders (robsd-regress: if); fixed '
+          'steps are the documented lists; regress and canvas entries appear exactly as configured, parallel first, none parallel when the switch is off (stated on the entries of the accepted text through C08); '
+          '-o k in decimal yields the suffix for 1..N, "too large" for N+1..INT_MAX, and is refused outside that range; every listed name is resolved by the runner to the FIRST step of that name, by the C10 '
+          'runner and, through the proved bridge, by the C06 runner (C10_one_runner, C10_listed_resolvable_one_runner); a listed position resolves to itself under pairwise different names and is unreachable '
+          'otherwise (witnesses replayed: regress "umount", duplicate canvas names, a canvas step called end); the listing oracles accept the model; the canvas end step is appended in place (pin on 8c850c1).',
+     note='k = N+1 is "offset too large" (the literal reading 1..N+1 of the quantifier includes it as the boundary). Name collisions and names with white space (the line format read back word by word by util.sh) '
+          'are observations outside the literal statement: every listed name IS resolvable; findings/C10_name_collisions.md, candidate patch (95 lines, changes what the parser accepts) not applied. rdomain in a '
+          'step command is outside the one-runner guard (witness). Known finding: listed-step-empty-command. Step tables, argv template, placeholder regenerated by t_conf.py/t_exec.py and proved to coincide.')
+_upd('C07',
+     text='PARTIAL. Coq theorems (closed under the global context) about a statement-by-statement model of step_exec/step_fork/waiteof/killwaitpg/killwaitpg1/sighandler/exitstatus, including the fork handshake and its '
+          '"process group failure" path, composed with an explicit kernel model, for ALL process trees (as member lists), timeouts and schedules (runner steps, SIGTERM, expiry of the timeout, members exiting, the '
+          'child coming up). Once an event reaches the runner blocked in waitpid(-pid) it makes at most 56 further transitions, is never blocked, and whenever it cannot move it has exited with the main process '
+          'reaped, SIGTERM sent to the group, SIGKILL only against a TERM-ignoring main (then nobody left), no default-disposition member alive, status 124 for the alarm (exactly 124 if no SIGTERM follows) and '
+          'non-zero otherwise unless the main process exited 0 itself; no [terminated] premise. With a positive timeout the alarm is armed whenever the runner waits; without one no SIGALRM ever arrives. Without an '
+          'event nothing is killed in any state and the main process\'s code is returned (or 1 after a failed handshake). The statement for every arrival point is REFUTED by three windows, each characterised for '
+          'every tree and schedule (sigterm-before-handler, signal-before-waitpid incl. the lost timeout, signal-during-group-failure incl. the never-armed timeout), all reproduced on the real binary (known '
+          'findings). The exact guard is proved as an IFF: spec holds at rest iff no event happened or some event found the runner in waitpid(-pid). Survivors are characterised exactly, and the harness oracle '
+          'applied to the model accepts exactly under that guard. KillDefs.exitstatus equals C06\'s clang-translated exitstatus for all integers.',
+     note_add='Since the strengthening pass: not modelled - a child that dies before closing the pipe; the tree\'s parent/child structure (only the member list has semantics). Observed additionally: handshake lanes '
+              '(child held before setsid via the LD_PRELOAD shim tools/kl_hold.c: SIGTERM / timeout expiry / nothing on the failure path, released in time). Candidate patch for the third window '
+              '(findings/D18_group_failure.diff) not applied: it would cut a step short without a termination request.')
+_upd('C20',
+     text='Coq theorems (all closed). (a) The 15 fallbacks, regenerated by a clang-AST translator, never trap and are exact for ALL operands, and have the C types their names promise; the 15 arithmetic.h entry points '
+          'are exact for either preprocessor branch (builtin = its documented contract, assumed). (b) vector.c/buffer.c models refine the list / byte-string programs for every sequence and ANY allocator (a failure '
+          'at any size changes nothing); at byte level, with the old-size expressions regenerated from the sources and any realloc keeping oldsize bytes, the block decodes to the abstract contents after every '
+          'sequence; single buffer_getline calls from any offset return exactly the remaining lines; qsort results are determined by key. (c) map.c model, ANY hash, EVERY sequence, NO call-site discipline: lookups '
+          'sound and complete, remove takes exactly one entry, every run is a run of a multi-dictionary (on the distinct-key discipline: of the deterministic dictionary); the iterator under arbitrary interleaving '
+          'returns entries at most once in insertion order and is complete for survivors, also while the current entry is removed; with the allocator modelled and for any calloc-failure plan the calls are legal, '
+          'account exactly for the owned blocks, and never touch a live element (values do not move). Stated with witnesses replayed on libks (outside the property: duplicate keys, allocation failure): which '
+          'duplicate a lookup answers flips at a bucket expansion; a NULL from MAP_INSERT can leave the element linked (expansion alloc failure) or leaked (table alloc failure).',
+     note='Proved about models. Tied to the code on every run by: translators (fallbacks, entry-point shape, constants, realloc old-size expressions); three compiled arithmetic builds on the boundary grid (fallback and '
+          'entry point vs model); in-process differential runs of vector/buffer through libc and through strict callbacks with refused sizes; map.c with calloc/free interposed (results, shapes, every allocator call, '
+          'structure, map_free, leaks), duplicate-key and calloc-failure sequences; extracted oracles (list, bytes, multi-dictionary) plus an independent allocator-discipline replay. Assumed: LP64, little-endian, '
+          'CInt.v, the builtin contract, realloc keeps oldsize bytes, qsort/vsnprintf/memcmp. Not modelled: printf n<0 for >= 2^31 bytes, 32-bit counters, use-after-free sequences (skipped). report.c and '
+          'robsd-wait.c insert without a preceding find (duplicates possible: no observable consequence in report.c; robsd-wait with a repeated pid argument is not reachable from util.sh) - '
+          'findings/C20_map_duplicate_keys.md; allocation-failure observations and candidate patch in findings/C20_map_alloc_failure.md (not applied: outside the quantifier). Repaired through this check: 7208c0f.')
